@@ -57,9 +57,13 @@ def endLines (d : DS) : String :=
     let x := s.ctx c
     let sh := match d.cli[c]? with | some k => k.shut | none => false
     x.nCls == 1 && !sh && x.got.length != x.sent.length
+  let fdl := ids.filter fun c =>
+    let x := s.ctx c
+    (x.mem = .freed && x.fdOpen) ||
+    (x.mem = .none && x.origin = .accepted && x.fdOpen && !(s.backlog.any fun p => p.1 == c))
   let ex := if s.exited then "1" else "0"
-  let m := s!"end exited={ex} leaks={idsStr leaks} multi={idsStr multi} bad={idsStr bad} lost={idsStr lost} wild=0"
-  s!"{m} | end exited={ex} leaks=- multi=- bad=- lost=- wild=0"
+  let m := s!"end exited={ex} leaks={idsStr leaks} multi={idsStr multi} bad={idsStr bad} lost={idsStr lost} fdl={idsStr fdl} wild=0"
+  s!"{m} | end exited={ex} leaks=- multi=- bad=- lost=- fdl=- wild=0"
 
 def setCli (l : List Cli) (i : Nat) (f : Cli → Cli) : List Cli :=
   l.mapIdx fun j k => if j = i then f k else k
